@@ -97,4 +97,32 @@ mod verif_kani_resp_parser {
     fn h_parser_scalars_n6() {
         check_scalars::<6>();
     }
+
+    // the real entry point, arrays included: no panic, no over-read, for every length 0..=N
+    fn check_full<const N: usize>() {
+        let buf = any_input::<N>();
+        let mut k = 0;
+        while k <= N {
+            let r = RespParser::parse(&buf[..k]);
+            if let Ok((_, n)) = &r {
+                assert!(0 < *n && *n <= k);
+            }
+            core::mem::forget(r);
+            k += 1;
+        }
+    }
+
+    // @harness: h_parser_full_n4
+    // @bound: probe
+    // @tier: quick
+    // @complete: false
+    #[kani::proof]
+    #[kani::unwind(6)]
+    #[kani::stub(alloc::string::String::from_utf8_lossy, lossy_ascii_stub)]
+    #[kani::stub(alloc::fmt::format, fmt_format_stub)]
+    #[kani::stub(core::fmt::write, fmt_write_stub)]
+    #[kani::stub(core::fmt::Formatter::pad, fmt_pad_stub)]
+    fn h_parser_full_n4() {
+        check_full::<4>();
+    }
 }
